@@ -1,6 +1,7 @@
 package main
 
 import (
+	"go/token"
 	"sort"
 	"strconv"
 	"strings"
@@ -217,6 +218,27 @@ func runC17(p *Program, r *Result) {
 				goto r175
 			}
 		}
+		// the same through a library call that applies a predicate function to every rune
+		// (strings.IndexFunc(name, notAllowed) < 0)
+		if ep := p.elemPredicateCall(vpn, func(v ssa.Value) bool { return v == ssa.Value(vpn.Params[0]) }); ep != nil {
+			want := specConst(r, "plugin.validNameChars")
+			var extra []int64
+			for _, c := range want {
+				extra = append(extra, int64(c))
+			}
+			eq, ok, w := ep.Equals(func(c int64) bool { return c >= 0 && strings.ContainsRune(want, rune(c)) }, extra)
+			if ok {
+				trueOnlyIfAll := true
+				for _, ret := range returnsOf(vpn) {
+					if !allPassOrFalse(ret.Results[0], ep.Call, 0) {
+						trueOnlyIfAll = false
+					}
+				}
+				r.Check(trueOnlyIfAll, vpn.String(), "loop", "", "every rune is tested by "+short(calleeName(&ep.Call.Call))+"; true only if none is refused", "validPluginName can return true without every character having been tested")
+				r.Check(eq, vpn.String(), "alphabet", "", "the accepted character set equals the specified set", "the accepted character set differs from the specification's at "+strconv.QuoteRune(rune(w)))
+				goto r175
+			}
+		}
 		{
 			okLoop := loop != nil && len(p.loopEarlyExits(loop)) == 0
 			if okLoop {
@@ -358,4 +380,37 @@ func checkPluginNameValidated(p *Program, r *Result) {
 		}
 		r.Check(okAll, fn.String(), "nonempty:validated", "", "a non-empty encoding is returned only for a valid name", "a non-empty encoding can be returned for a name that was not validated")
 	}
+}
+
+// allPassOrFalse: v is false, or is true exactly when the library call found no element for
+// which the predicate holds (IndexFunc(..) < 0, == -1, !ContainsFunc(..)), or a merge of such.
+func allPassOrFalse(v ssa.Value, call *ssa.Call, depth int) bool {
+	if depth > 4 {
+		return false
+	}
+	switch x := v.(type) {
+	case *ssa.Const:
+		return x.Value != nil && x.Value.ExactString() == "false"
+	case *ssa.Phi:
+		for _, e := range x.Edges {
+			if !allPassOrFalse(e, call, depth+1) {
+				return false
+			}
+		}
+		return true
+	case *ssa.UnOp:
+		if x.Op == token.NOT && x.X == ssa.Value(call) && strings.HasSuffix(calleeName(&call.Call), "ContainsFunc") {
+			return true
+		}
+	case *ssa.BinOp:
+		if x.X != ssa.Value(call) || !strings.HasSuffix(calleeName(&call.Call), "IndexFunc") {
+			return false
+		}
+		k, ok := constInt(x.Y)
+		if !ok {
+			return false
+		}
+		return x.Op == token.LSS && k == 0 || x.Op == token.EQL && k == -1 || x.Op == token.LEQ && k == -1
+	}
+	return false
 }
